@@ -132,6 +132,21 @@ def jobs_c16(tier, seed):
     return js
 
 
+def probes(prop):
+    def f(tier, seed):
+        import sys, os
+        sys.path.insert(0, os.path.join(os.path.dirname(os.path.abspath(__file__)), "probes"))
+        import engine
+        return engine.run(prop, tier, seed)
+
+    return f
+
+
+PROBE_ASSUME = [
+    "what is decided is a finite adversarial corpus plus structural (variance / auto-trait) probes, not all safe programs",
+    "rustc's verdict on each probe and its positive twin; accepted probes are run natively, under ASan and under Miri",
+]
+
 COMMON_ASSUME = [
     "the shadow model mirrors every mutator op it issues (validated by lock-step traversal after every callback)",
     "destructor and release events are observed at the Drop / global-allocator boundary, not inside the collector",
@@ -253,6 +268,7 @@ CHECKS = {
     "C19": dict(
         level="exploration",
         jobs=jobs_lay("C19", "convert"),
+        custom=probes("C19"),
         rule="seeded conversion chains (length 1-8) over sized, trait-object, array->slice, slice, str targets using erase, erase_kind, downgrade/upgrade, unsize!, as_thin/as_fat, raw round trips, stash/fetch, allocated in a seeded phase; identity and value at every step, survival with only the converted pointer rooted, destructed exactly once after; ZstCache<1..64> x ZST alignments 1..64 (+ non-ZSTs); non-trivial = chain of >= 2 steps",
         floors={"chains": 1_000, "zst_cache_checks": 100},
         assumptions=COMMON_ASSUME + ["the 'no conjured values' half is decided by the conjuring probes"],
@@ -261,6 +277,7 @@ CHECKS = {
         level="exploration",
         jobs=jobs_c15,
         pregen=pregen_c15,
+        custom=probes("C15"),
         rule="generated derive(Collect) corpus: 60 fixed + 60 seeded (940 in thorough) types: named/tuple/unit structs, enums with unit/tuple/named variants, generics with default and overridden bounds, explicit gc_lifetime, unsafe_drop, type-level require_static, require_static fields (of a type that is not Collect) at random positions, up to 12 fields of nested container types; per variant a recording Trace compares the reported (pointer, strength) multiset with every pointer placed, NEEDS_TRACE with the disjunction computed by the generator, plus an end-to-end survival round with the value as arena root; rejections by the probe corpus; non-trivial = the variant holds at least one pointer",
         floors={"trace_comparisons": 100, "field_positions": 300},
         assumptions=COMMON_ASSUME + ["generator-computed expectations (gen/shapes.py) are the reference"],
@@ -268,8 +285,25 @@ CHECKS = {
     "C16": dict(
         level="exploration",
         jobs=jobs_c16,
+        custom=probes("C16"),
         rule="table over every provided Collect impl x pointer kind (Gc / GcWeak) x type-parameter position (keys, values, Ok/Err, each of 16 tuple positions, header vs element) x sizes {0,1,2,7,33} (wrapped VecDeque, spilled SmallVec, SlotMap with a removed slot); recorded multiset = inserted multiset with the right strength; NEEDS_TRACE for pointer-bearing and pointer-free instantiations; end-to-end survival of one strong and one weak target per container; feature sets {all five optional, none, no-std} (all 64 combinations in thorough); non-trivial = case holds at least one pointer",
         floors={"trace_comparisons": 1_500, "needs_trace_checks": 150},
         assumptions=COMMON_ASSUME,
+    ),
+    "C12": dict(
+        level="exploration",
+        jobs=lambda tier, seed: [],
+        custom=probes("C12"),
+        rule="adversarial compile-probe corpus: return / outer-variable / thread_local / static / thread::spawn escapes of Gc, GcWeak, &'gc T, &Mutation, &Finalization, DynamicRootSet, &Write, Ref through each of Arena::new, try_new, mutate, mutate_root, map_root, try_map_root, finalize, rootless_mutate (incl. the error value of the fallible constructors and fetch results); cross-arena uses; variance probes in BOTH directions for 14 pointer/context types (an invariant type rejects both, which settles every subtyping-based escape); Send/Sync probes for 13 types; each probe must be rejected with an error of its class and its positive twin must compile; non-trivial = rejected with the expected class while the twin compiles",
+        floors={"distinct_nontrivial": 100},
+        assumptions=PROBE_ASSUME,
+    ),
+    "C13": dict(
+        level="exploration",
+        jobs=lambda tier, seed: [],
+        custom=probes("C13"),
+        rule="probe corpus over each constructor of Write (assume, from_static, from_mut, struct literal, __from_ref_and_ptr), each Unlock path (unlock on plain Lock/RefLock, as_cell/as_ref_cell/unlock_unchecked without unsafe), field! through Gc/Box/&, user impls of DerefWrite/IndexWrite/Collect without unsafe, Cell/RefCell/OnceCell fields under the derive; plus run-probes that adopt a fresh child into a fully marked parent through each DerefWrite/IndexWrite/as_write path, run two cycles and read the child back (Drop counter + ASan + Miri): every probe must be rejected by the compiler or run without violating C01",
+        floors={"distinct_nontrivial": 25},
+        assumptions=PROBE_ASSUME,
     ),
 }
